@@ -3,6 +3,7 @@ use crate::rng::Rng;
 use std::fmt::Write as _;
 
 pub mod c01;
+pub mod c16;
 pub mod c17;
 pub mod c19;
 pub mod c20;
